@@ -96,7 +96,20 @@ def iteration_view(it):
             return 'concrete', [I.call(gi, [it, k], {}) for k in range(c)]
         return 'symbolic', ops.as_int(n), lambda k, it=it, gi=gi: I.call(gi, [it, ops.wrap_int(V.iv(k))], {})
     if isinstance(it, SFlags):
-        raise E.Unsupported('iteration over symbolic flag set (order and size symbolic)')
+        # a set: size = number of members present; the k-th element is *some* member that is present (order abstracted:
+        # only loops whose contract does not depend on the order can be verified through this view)
+        ms = list(it.cls)
+        n = z3.Sum(*[z3.If(it.bits[m], 1, 0) for m in ms if m in it.bits]) if it.bits else z3.IntVal(0)
+
+        def elem(k, it=it, ms=ms):
+            P = E.cur()
+            idx = V.fresh_int('member')
+            P.assume(z3.Or(*[z3.And(idx == i, it.bits[m]) for i, m in enumerate(ms) if m in it.bits]))
+            return SEnum(it.cls, idx)
+        c = concretize_count(n)
+        if c == 0:
+            return 'concrete', []
+        return 'symbolic', V.simp(n), elem
     if isinstance(it, type) and issubclass(it, enum.Enum):
         return 'concrete', list(it)
     if isinstance(it, dict):
@@ -258,6 +271,8 @@ def comprehension(frame, e, kind):
         return comp_unroll_items(frame, e, g, view[1], kind)
     if kind == 'list' and not g.ifs:
         return comp_map(frame, e, g, view[1], view[2])
+    if kind == 'list' and g.ifs:
+        return SFilter(frame, e, g, view[1], view[2])
     raise E.Unsupported('comprehension %s:%d over a symbolic-length iterable' % key)
 
 
@@ -557,3 +572,33 @@ class HavocLoop(object):
 
     def on_break(self, frame, ctx, k):
         pass
+
+
+class SFilter(object):
+    """[f(x) for x in xs if c(x)] over a symbolic-length xs, evaluated lazily: only `next(iter(..))` (first match or
+    StopIteration) is supported - the idiom the code base uses to search a byte string"""
+
+    def __init__(self, frame, e, g, n, elem):
+        self.frame, self.e, self.g, self.n, self.elem = frame, e, g, n, elem
+
+    def first(self):
+        P = E.cur()
+        n = self.n
+        j = V.fresh_int('fj')
+        sub = F.Frame(self.frame.fn, dict(self.frame.env), self.frame.node, parent=self.frame.parent)
+        with P.scope():
+            P.assume(z3.And(j >= 0, j < n))
+            sub.assign(self.g.target, self.elem(j))
+            cond = z3.And(*[to_bool_expr(sub.ev(c)) for c in self.g.ifs])
+            val = sub.ev(self.e.elt)
+        if not ops.is_intlike(val):
+            raise E.Unsupported('filtered comprehension element of type %s' % type(val).__name__)
+        vterm = ops.as_int(val)
+        at = lambda i: z3.substitute(cond, (j, V.iv(i)))
+        jq = z3.Int('j!q')
+        if P.choose('some element matches'):
+            w = V.fresh_int('first')
+            P.assume(z3.And(w >= 0, w < n, at(w), z3.ForAll([jq], z3.Implies(z3.And(jq >= 0, jq < w), z3.Not(at(jq))))))
+            return True, ops.wrap_int(z3.substitute(vterm, (j, w)))
+        P.assume(z3.ForAll([jq], z3.Implies(z3.And(jq >= 0, jq < n), z3.Not(at(jq)))))
+        return False, None
